@@ -7,6 +7,7 @@ import time
 import tracemalloc
 import warnings
 from abc import abstractmethod
+from contextlib import contextmanager
 from enum import Enum
 from pathlib import Path
 from typing import Optional, Union
@@ -18,6 +19,19 @@ import scipy.sparse as sps
 from scipy.stats import hmean
 
 import darsia
+
+@contextmanager
+def _fixed_random_state():
+    """pyamg draws from numpy's global random state, when building a hierarchy and - for
+    coarse solvers of relaxation type, which are set up lazily - also when solving. Do
+    not alter the state of the caller, and do not let results depend on it."""
+    random_state = np.random.get_state()
+    try:
+        np.random.seed(0)
+        yield
+    finally:
+        np.random.set_state(random_state)
+
 
 # General TODO list
 # - improve assembling of operators through partial assembling
@@ -402,20 +416,11 @@ class VariationalWassersteinDistance(darsia.EMD):
         """
         # Define AMG solver
         self.setup_amg_options()
-        # NOTE: pyamg draws from numpy's global random state; do not alter it, and do
-        # not let the hierarchy (and thereby the result) depend on it.
-        random_state = np.random.get_state()
-        np.random.seed(0)
-        try:
-            with warnings.catch_warnings():
-                warnings.filterwarnings(
-                    "ignore", message="Implicit conversion of A to CSR"
-                )
-                self.linear_solver = pyamg.smoothed_aggregation_solver(
-                    matrix, **self.amg_options
-                )
-        finally:
-            np.random.set_state(random_state)
+        with _fixed_random_state(), warnings.catch_warnings():
+            warnings.filterwarnings("ignore", message="Implicit conversion of A to CSR")
+            self.linear_solver = pyamg.smoothed_aggregation_solver(
+                matrix, **self.amg_options
+            )
 
         # Define solver options
         linear_solver_options = self.options.get("linear_solver_options", {})
@@ -449,20 +454,11 @@ class VariationalWassersteinDistance(darsia.EMD):
 
         # Define AMG preconditioner
         self.setup_amg_options()
-        # NOTE: pyamg draws from numpy's global random state; do not alter it, and do
-        # not let the hierarchy (and thereby the result) depend on it.
-        random_state = np.random.get_state()
-        np.random.seed(0)
-        try:
-            with warnings.catch_warnings():
-                warnings.filterwarnings(
-                    "ignore", message="Implicit conversion of A to CSR"
-                )
-                amg = pyamg.smoothed_aggregation_solver(
-                    matrix, **self.amg_options
-                ).aspreconditioner(cycle="V")
-        finally:
-            np.random.set_state(random_state)
+        with _fixed_random_state(), warnings.catch_warnings():
+            warnings.filterwarnings("ignore", message="Implicit conversion of A to CSR")
+            amg = pyamg.smoothed_aggregation_solver(
+                matrix, **self.amg_options
+            ).aspreconditioner(cycle="V")
 
         # Define solver options
         linear_solver_options = self.options.get("linear_solver_options", {})
@@ -1167,9 +1163,10 @@ class VariationalWassersteinDistance(darsia.EMD):
 
             # 3. Solve for the pressure and lagrange multiplier
             tic = time.time()
-            solution[self.reduced_system_slice] = self.linear_solver.solve(
-                self.reduced_rhs, **self.solver_options
-            )
+            with _fixed_random_state():
+                solution[self.reduced_system_slice] = self.linear_solver.solve(
+                    self.reduced_rhs, **self.solver_options
+                )
 
             # 4. Compute flux update
             solution[self.flux_slice] = self.compute_flux_update(solution, rhs)
@@ -1252,9 +1249,12 @@ class VariationalWassersteinDistance(darsia.EMD):
 
             # 4. Solve the pure pressure system
             tic = time.time()
-            solution[self.fully_reduced_system_indices_full] = self.linear_solver.solve(
-                self.fully_reduced_rhs, **self.solver_options
-            )
+            with _fixed_random_state():
+                solution[
+                    self.fully_reduced_system_indices_full
+                ] = self.linear_solver.solve(
+                    self.fully_reduced_rhs, **self.solver_options
+                )
 
             # 5. Compute lagrange multiplier - not required, as it is zero
             pass
